@@ -1,2 +1,5 @@
+pub mod docmodel;
+pub mod faulty;
 pub mod ks;
 pub mod res;
+pub mod stor;
